@@ -431,3 +431,43 @@ pub fn stub_ts_time(ts: Timestamp) -> Time {
 pub fn stub_try_format(_args: std::fmt::Arguments<'_>) -> crate::error::Result<String> {
     Ok(String::new())
 }
+
+// ---------------------------------------------------------------------------------------------
+// The clock as a symbolic variable: stub for `chrono::Local::now` (zero UTC offset).  Kani cannot
+// compile the real one (it reaches libc time-zone code), and C18 wants every instant anyway.
+// ---------------------------------------------------------------------------------------------
+pub static mut CLOCK: (i32, u32, u32, u32, u32, u32, u32) = (2000, 1, 1, 0, 0, 0, 0);
+pub static mut CLOCK_READS: u32 = 0;
+
+pub fn stub_local_now() -> chrono::DateTime<chrono::Local> {
+    let c = unsafe {
+        CLOCK_READS += 1;
+        CLOCK
+    };
+    let nd = chrono::NaiveDate::from_ymd_opt(c.0, c.1, c.2).unwrap();
+    let ndt = nd.and_hms_micro_opt(c.3, c.4, c.5, c.6).unwrap();
+    chrono::DateTime::<chrono::Local>::from_naive_utc_and_offset(ndt, chrono::FixedOffset::east_opt(0).unwrap())
+}
+
+/// Sets the stubbed clock to an arbitrary real calendar instant of years `ylo..=yhi` and returns it.
+/// The seven values are drawn first thing so that the native replay can derive the clock shim's
+/// epoch from the first seven inputs of the counterexample.
+pub fn any_clock(ylo: i32, yhi: i32) -> (i32, u32, u32, u32, u32, u32, u32) {
+    let y: i32 = kani::any();
+    let m: u32 = kani::any();
+    let d: u32 = kani::any();
+    let h: u32 = kani::any();
+    let mi: u32 = kani::any();
+    let s: u32 = kani::any();
+    let us: u32 = kani::any();
+    kani::assume(y >= ylo && y <= yhi && o_valid_ymd(y, m, d) && h < 24 && mi < 60 && s < 60 && us < 1_000_000);
+    unsafe {
+        CLOCK = (y, m, d, h, mi, s, us);
+        CLOCK_READS = 0;
+    }
+    (y, m, d, h, mi, s, us)
+}
+
+pub fn clock_reads() -> u32 {
+    unsafe { CLOCK_READS }
+}
